@@ -1115,7 +1115,65 @@ def r5_purity(repo: Repo, rep):
         rep.check(R, not bad, fi.site(), fi.fq, "points/params are only read", "; ".join(bad[:2]), "; ".join(bad[:2]))
 
 
+# ------------------------------------------------------------------ R-C05-13
+def r13_mask_combination(repo: Repo, rep):
+    R = rep.rule("R-C05-13", "membership answers are combined with torch.logical_and / logical_or / logical_not (defined for every mask dtype) as long as a domain of the package "
+                 "answers with a float 0./1. mask; the bitwise operators & | ~ are not defined for those", floor=1,
+                 why="ShapelyPolygon._contains fills a float tensor: `in_a & in_b` raises for every expression with a polygon operand instead of answering row by row")
+    from ..util import deref, single_defs
+    float_masks = []
+    for name, m in repo.modules.items():
+        if ".problem.domains." not in name:
+            continue
+        for ci in m.classes.values():
+            fi = ci.methods.get("_contains")
+            if fi is None:
+                continue
+            tmp = single_defs(fi.node)
+            for r in ast.walk(fi.node):
+                if isinstance(r, ast.Return) and r.value is not None:
+                    v = deref(r.value, tmp)
+                    while isinstance(v, ast.Call) and isinstance(v.func, ast.Attribute) and v.func.attr in ("reshape", "view", "to"):
+                        v = v.func.value
+                    if isinstance(v, ast.Name):
+                        binds = [a.value for a in ast.walk(fi.node) if isinstance(a, ast.Assign) and len(a.targets) == 1 and isinstance(a.targets[0], ast.Name) and a.targets[0].id == v.id]
+                        if len(binds) == 1:
+                            v = binds[0]
+                    if isinstance(v, ast.Call) and attr_chain(v.func) in ("torch.zeros", "torch.ones", "torch.empty") and not any(k.arg == "dtype" for k in v.keywords):
+                        float_masks.append(fi)
+    rep.check(R, True, "src/torchphysics/problem/domains", "-", "inventory of float-valued membership answers", f"{[f.fq.split('.')[-2] for f in float_masks]}", "inventory")
+    if not float_masks:
+        return  # every answer is Boolean: the operator spelling is then equivalent
+    why = float_masks[0].fq.split(".")[-2]
+    for name, m in repo.modules.items():
+        if ".problem.domains." not in name and ".problem.samplers." not in name:
+            continue
+        funcs = list(m.functions.values()) + [fi for ci in m.classes.values() for fi in ci.methods.values()]
+        for fi in funcs:
+            ops = [n for n in ast.walk(fi.node) if (isinstance(n, ast.BinOp) and isinstance(n.op, (ast.BitAnd, ast.BitOr, ast.BitXor))) or (isinstance(n, ast.UnaryOp) and isinstance(n.op, ast.Invert))]
+            if not ops:
+                continue
+            tmp = single_defs(fi.node)
+            for n in ops:
+                operands = [n.left, n.right] if isinstance(n, ast.BinOp) else [n.operand]
+                def is_mask(x):
+                    if isinstance(x, ast.Call) and isinstance(x.func, ast.Attribute) and x.func.attr in ("_contains", "__contains__"):
+                        return True
+                    if isinstance(x, ast.Call) and (attr_chain(x.func) or "") in ("torch.logical_and", "torch.logical_or", "torch.logical_not", "torch.logical_xor"):
+                        return any(is_mask(a) for a in x.args)
+                    if isinstance(x, ast.BinOp) and isinstance(x.op, (ast.BitAnd, ast.BitOr, ast.BitXor)):
+                        return is_mask(x.left) or is_mask(x.right)
+                    if isinstance(x, ast.UnaryOp) and isinstance(x.op, ast.Invert):
+                        return is_mask(x.operand)
+                    return False
+                member = [o for o in operands if is_mask(deref(o, tmp))]
+                if member:
+                    rep.saw(fi)
+                    rep.violation(R, fi.site(n), fi.fq, f"torch.logical_* on membership answers (a {why} operand answers with a float mask)", dump(n)[:80], f"bitwise {dump(n)[:60]}")
+
+
 def run(repo: Repo, rep):
+    r13_mask_combination(repo, rep)
     r1_truth_tables(repo, rep)
     r2_pullback(repo, rep)
     r3_rowwise(repo, rep)
@@ -1152,6 +1210,7 @@ _IV = "src/torchphysics/problem/domains/domain1D/interval.py"
 _TRI = "src/torchphysics/problem/domains/domain2D/triangle.py"
 _PAR = "src/torchphysics/problem/domains/domain2D/parallelogram.py"
 MUTANTS = [
+    dict(id="C05-M50", file=_I, old="        return torch.logical_and(in_a, in_b)\n\n    def _get_volume", new="        return in_b & in_a\n\n    def _get_volume", rule="R-C05-13", what="bitwise operator on masks that may be float (polygon operands)"),
     dict(id="C05-M40", file=_TRI, old="close_to_0 = torch.isclose(bary_coord1, torch.tensor(0.0), atol=1e-5)", new="close_to_0 = torch.isclose(bary_coord1, torch.tensor(0.0))", rule="R-C05-8", what="side test at 0 with the default atol"),
     dict(id="C05-M41", file=_PAR, old="between_0_1 = torch.logical_and(-1e-5 <= bary_coord2, bary_coord2 <= 1 + 1e-5)", new="between_0_1 = torch.logical_and(0 <= bary_coord2, bary_coord2 <= 1)", rule="R-C05-8", what="exact range test in boundary membership"),
     dict(id="C05-M42", file=_PAR, old="close_to_0 = torch.isclose(bary_coord1, torch.tensor(0.0), atol=1e-5)", new="close_to_0 = torch.abs(bary_coord1) <= 1e-8", rule="R-C05-8", what="explicit absolute test below float32 resolution"),
@@ -1175,9 +1234,9 @@ TWINS = [
     dict(id="C05-T40", file=_TRI, old="close_to_0 = torch.isclose(bary_coord1, torch.tensor(0.0), atol=1e-5)", new="close_to_0 = bary_coord1.abs() <= 1e-5", what="explicit absolute test with the same slack"),
     dict(id="C05-T41", file=_PAR, old="between_0_1 = torch.logical_and(-1e-5 <= bary_coord2, bary_coord2 <= 1 + 1e-5)", new="slack = 1e-5\n        between_0_1 = torch.logical_and(bary_coord2 >= -1e-5, 1.00001 >= bary_coord2)", what="range test mirrored, folded constants"),
     dict(id="C05-T1", file=_CU, old="        return torch.logical_and(in_a, torch.logical_not(in_b))", new="        return torch.logical_not(torch.logical_or(torch.logical_not(in_a), in_b))", what="De Morgan"),
-    dict(id="C05-T2", file=_I, old="        return torch.logical_and(in_a, in_b)\n\n    def _get_volume", new="        return in_b & in_a\n\n    def _get_volume", what="operator form, commuted"),
+    dict(id="C05-T2", file=_I, old="        return torch.logical_and(in_a, in_b)\n\n    def _get_volume", new="        return torch.logical_and(in_b, in_a)\n\n    def _get_volume", what="commuted"),
     dict(id="C05-T3", file=_U, old="        on_both = torch.logical_and(on_b_bound, on_a_bound)\n        on_a_part = torch.logical_and(on_a_bound, torch.logical_not(in_b))\n        on_b_part = torch.logical_and(on_b_bound, torch.logical_not(in_a))\n        return torch.logical_or(on_a_part, torch.logical_or(on_b_part, on_both))",
-         new="        outside_b = ~in_b\n        outside_a = ~in_a\n        part_a = on_a_bound & outside_b\n        part_b = on_b_bound & outside_a\n        both = on_a_bound & on_b_bound\n        return (part_a | part_b) | both", what="operators and temporaries"),
+         new="        outside_b = torch.logical_not(in_b)\n        outside_a = torch.logical_not(in_a)\n        part_a = torch.logical_and(on_a_bound, outside_b)\n        part_b = torch.logical_and(on_b_bound, outside_a)\n        both = torch.logical_and(on_a_bound, on_b_bound)\n        return torch.logical_or(torch.logical_or(part_a, part_b), both)", what="temporaries, re-associated"),
     dict(id="C05-T4", file=_T, old="        shifted_points = points[:, list(self.space.keys())].as_tensor - translate_values\n        # points[:, list(self.space.keys())] = Points(shifted_points, self.space)\n        return self.domain._contains(Points(shifted_points, self.space), params)",
          new="        own = points[:, list(self.space.keys())].as_tensor\n        moved_back = -translate_values + own\n        return self.domain._contains(Points(moved_back, self.space), params)", what="commuted sum"),
 ]
